@@ -7,9 +7,64 @@ and judges: returned value == json.loads(library result) under a type-exact comp
 library error / malformed text -> exactly ValueError; supplied (de)serialisers called exactly
 as specified. A progress record is flushed before every call so that a crash of the
 interpreter is attributable."""
-import hashlib, json, signal, sys, math
+import hashlib, json, os, signal, sys, math
+
+# Environment-independence variant (JL_PY_PERTURB=A|B, C19): what the module returns is fixed by its
+# arguments, so it cannot depend on an environment variable. While the module is imported and while a
+# call is in flight, every variable that is looked up and does not exist is answered ("1" in A, "0" in
+# B); natively (std::env -> getenv) the same is done by the LD_PRELOAD interposer, armed around each
+# call. All the ordinary monitors then run unchanged against the unperturbed library oracle.
+PERTURB = os.environ.get("JL_PY_PERTURB", "")
+ARMED = [False]
+CONSULTED = {}
+_shim_arm = None
+if PERTURB:
+    import collections.abc
+
+    class _PerturbedEnviron(collections.abc.MutableMapping):
+        def __init__(self, real):
+            self._real = real
+
+        def __getitem__(self, k):
+            try:
+                return self._real[k]
+            except KeyError:
+                if ARMED[0]:
+                    CONSULTED[str(k)] = CONSULTED.get(str(k), 0) + 1
+                    return "1" if PERTURB == "A" else "0"
+                raise
+
+        def __contains__(self, k):
+            if k in self._real:
+                return True
+            if ARMED[0]:
+                CONSULTED[str(k)] = CONSULTED.get(str(k), 0) + 1
+                return True
+            return False
+
+        def __setitem__(self, k, v):
+            self._real[k] = v
+
+        def __delitem__(self, k):
+            del self._real[k]
+
+        def __iter__(self):
+            return iter(self._real)
+
+        def __len__(self):
+            return len(self._real)
+
+    os.environ = _PerturbedEnviron(os.environ)
+    try:
+        import ctypes
+        _shim_arm = ctypes.CDLL(None).jl_shim_arm
+    except Exception:
+        _shim_arm = None
+    ARMED[0] = True
 
 import jsonlogic_rs
+
+ARMED[0] = False
 
 
 def exact_eq(a, b):
@@ -70,11 +125,19 @@ def main():
         # bounded termination: the native call holds the GIL, so no Python-level timeout can fire;
         # an ITIMER_PROF with the default disposition ends the process after 20 s of CPU in one call
         signal.setitimer(signal.ITIMER_PROF, 20.0)
+        if PERTURB:
+            ARMED[0] = True
+            if _shim_arm is not None:
+                _shim_arm(1)
         try:
             return ("ok", fn())
         except BaseException as e:  # noqa: judged below
             return ("exc", e)
         finally:
+            if PERTURB:
+                if _shim_arm is not None:
+                    _shim_arm(0)
+                ARMED[0] = False
             signal.setitimer(signal.ITIMER_PROF, 0)
 
     def judge(label, monitor, res, oracle, rule, data, want_value, transform=None):
@@ -262,6 +325,8 @@ def main():
         want2 = json.loads(o2["ret"]["ok"]) if "ok" in o2["ret"] else NOVALUE
         res = call("apply(bigint)", lambda: jsonlogic_rs.apply({"var": ""}, [big]), r2, d2)
         judge("apply(bigint)", "c19.apply", res, o2, r2, d2, want2)
+    if PERTURB:
+        rep["samples"].append({"perturbed_environment": PERTURB, "native_interposer_armed": _shim_arm is not None, "variables_looked_up_during_import_or_calls": dict(list(CONSULTED.items())[:20])})
     json.dump(rep, open(out_file, "w"))
 
 
@@ -277,8 +342,9 @@ CURRENT = [-1]
 class Lib:
     """The library as a separate process (jlmon libcall), kept open for the re-encoded texts."""
     def __init__(self):
-        import os, subprocess
-        self.p = subprocess.Popen([os.environ["JL_LIBCALL"], "libcall"], stdin=subprocess.PIPE, stdout=subprocess.PIPE)
+        import subprocess
+        env = {k: v for k, v in os.environ.items() if k not in ("LD_PRELOAD", "JL_SHIM_MODE", "JL_PY_PERTURB")}
+        self.p = subprocess.Popen([os.environ["JL_LIBCALL"], "libcall"], stdin=subprocess.PIPE, stdout=subprocess.PIPE, env=env)
 
     def ask(self, rule, data):
         self.p.stdin.write((json.dumps({"rule": rule, "data": data}) + "\n").encode("utf8"))
